@@ -689,8 +689,11 @@ make_corpus(void)
     }
 }
 
-/* generic oracle for arbitrary streams: safety + well-formed replies + no
- * acknowledgement without a memory access + short frames are header errors */
+/* generic oracle for arbitrary streams: safety + well-formed replies.  (How
+ * many acknowledgements a stream earns in relation to the backend calls it
+ * causes is not a C09 sentence: an implementation may acknowledge a request for
+ * zero units without asking the backend.  Family vii keeps its own clause: an
+ * undecodable stream is never acknowledged.) */
 static bool g_skip_reply_form; /* allocation failure on a frame that is not a request: the statement prescribes no reply form */
 
 static void
@@ -712,16 +715,17 @@ check_stream(struct drv *d, bool tcp, const struct result *r, const char *what)
         if ((rp[i].type == RT_READ_RESP || rp[i].type == RT_WRITE_RESP) && rp[i].meta == 0)
             acks++;
     if (acks > d->ncalls)
-        mc_fail("C09/no-ack-without-access", "%s: %d acknowledgements for %d memory accesses", what, acks, d->ncalls);
+        mc_log("%s: %d acknowledgements for %d memory accesses (observation only)", what, acks, d->ncalls);
     (void)r;
 }
 
-/* "reported as bad header encoding": error.id set (the value is not fixed by
- * the statement) or the header-encoding meta message among the replies */
+/* "reported as bad header encoding": to the caller - regp_recv returns a
+ * negative code or sets error.id (the values are not fixed by the statement) -
+ * or to the peer: the header-encoding meta message among the replies */
 static bool
-short_frame_reported(int errid, int nr, const struct rframe *rp)
+short_frame_reported(int rrc, int errid, int nr, const struct rframe *rp)
 {
-    if (errid != 0)
+    if (rrc < 0 || errid != 0)
         return true;
     for (int i = 0; i < nr; ++i)
         if (rp[i].type == RT_META && rp[i].meta == 1)
@@ -820,13 +824,13 @@ family_iv(void)
                     unsigned char scratch[DRV_WIRE];
                     struct rframe rp[8];
                     const int nr = replies(&D, c->tcp, rp, scratch);
-                    /* reported as bad header encoding: to the caller (error.id set; which value the
-                     * statement does not say) or to the peer (the header-encoding meta message);
-                     * either channel will do.  The return value may say so too. */
+                    /* reported as bad header encoding: to the caller (regp_recv returns a negative
+                     * code or sets error.id; which value the statement does not say) or to the peer
+                     * (the header-encoding meta message); either channel will do. */
                     if (D.ncalls != 0)
                         mc_fail("C09/short-frame-is-bad-header", "%s: rc=%d error.id=%d calls=%d (a frame shorter than a header was executed)", what, r.rrc[0], r.errid[0], D.ncalls);
-                    else if (!short_frame_reported(r.errid[0], nr, rp))
-                        mc_fail("C09/short-frame-is-bad-header", "%s: rc=%d error.id=0 and %d replies, none the header-encoding meta message (expected the frame to be reported as bad header encoding)",
+                    else if (!short_frame_reported(r.rrc[0], r.errid[0], nr, rp))
+                        mc_fail("C09/short-frame-is-bad-header", "%s: rc=%d (no error) error.id=0 and %d replies, none the header-encoding meta message (expected the frame to be reported as bad header encoding)",
                                 what, r.rrc[0], nr);
                 }
                 drv_release(&D);
@@ -1391,7 +1395,7 @@ viii_judge(const struct scen *s, int tv, const struct vrun *v, const char *what)
             } else if (nr < 0) {
                 mc_fail("C09/reply-well-formed", "%s: the octets sent back are not a sequence of valid frames", what);
                 ok = false;
-            } else if (s->expect == EK_META_ENC && !short_frame_reported(v->errid, nr, rp)) {
+            } else if (s->expect == EK_META_ENC && !short_frame_reported(v->rrc, v->errid, nr, rp)) {
                 mc_fail("C09/short-frame-is-bad-header", "%s: error.id=0 and %d replies, none the header-encoding meta message (expected the frame to be reported as bad header encoding)", what, nr);
                 ok = false;
             }
